@@ -110,6 +110,9 @@ def ensure_gen(force=False):
         rc, o3, e3 = sh(['python3', ROOT + '/tools/gen_bessel.py'], 120)
         if rc != 0:
             raise InfraError('bessel table extraction failed: ' + (e3 or o3)[-1500:])
+        rc, o4, e4 = sh(['python3', ROOT + '/tools/gen_pywrap.py'], 120)
+        if rc != 0:
+            raise InfraError('python wrapper table extraction failed: ' + (e4 or o4)[-1500:])
         mkproject()
         open(stamp, 'w').write(h)
         log('generated model from /repo (%s) in %.1fs' % (h, time.time() - t))
@@ -1023,15 +1026,18 @@ def run_model(cases, tag, extra_imports='', max_rounds=8, oracle_exe=None, shard
                 lines.append('Eval vm_compute in [' + ';\n  '.join(items[i:i + 50]) + '].')
             path = '%s/r%d_s%d.v' % (cdir, rounds, si)
             open(path, 'w').write('\n'.join(lines) + '\n')
-            procs.append((sh_cases, path, subprocess.Popen(['timeout', '900', 'coqc', '-noglob'] + COQFLAGS + [path], cwd=cdir,
-                                                           stdout=subprocess.PIPE, stderr=subprocess.PIPE, text=True)))
+            # output goes to files: a pipe would fill up (and block coqc) while we wait for the batch of 16 to finish
+            fo, fe = open(path + '.out', 'w'), open(path + '.err', 'w')
+            procs.append((sh_cases, path, subprocess.Popen(['timeout', '900', 'coqc', '-noglob'] + COQFLAGS + [path], cwd=cdir, stdout=fo, stderr=fe)))
+            fo.close(); fe.close()
             if len(procs) % 16 == 0:
                 for _, _, p in procs[-16:]:
                     p.wait()
         still = []
         need = set()
         for sh_cases, path, p in procs:
-            o, e = p.communicate()
+            p.wait()
+            o, e = open(path + '.out').read(), open(path + '.err').read()
             stats['coqc_runs'] += 1
             if p.returncode != 0:
                 # the model does not even elaborate for one of these (type, op) pairs: report per case
